@@ -2,8 +2,10 @@ package main
 
 import (
 	"fmt"
+	"go/types"
 	"math"
 	"strings"
+	"sync"
 )
 
 // Sym is a symbolic scalar: an SMT-LIB term of sort Bool or Int.
@@ -303,4 +305,16 @@ func isSymbolic(v Value) bool {
 		return true
 	}
 	return false
+}
+
+// ptrTo returns THE pointer type to t: go/types creates a fresh object per NewPointer call, and every
+// fresh object becomes a new key of the program's method-set cache (670 MB after 10^5 paths)
+var ptrTypes sync.Map
+
+func ptrTo(t types.Type) *types.Pointer {
+	if p, ok := ptrTypes.Load(t); ok {
+		return p.(*types.Pointer)
+	}
+	p, _ := ptrTypes.LoadOrStore(t, types.NewPointer(t))
+	return p.(*types.Pointer)
 }
